@@ -502,3 +502,158 @@ def depth_job(eng, tables, prop, levels, native_levels, deadline, max_paths=None
     job.samples.append({"levels": results})
     job.extra["finding_counts"] = {f["key"]: 1 for f in job.findings}
     return job
+
+
+def spine_input(ctx, levels, policy, via, form):
+    """COSE_Sign1 with `levels` nested counter-signatures.  via='protected': each level sits in the
+    protected header (bstr) of the previous one; via='unprotected': in its unprotected header.
+    form='bare': label 7 holds one COSE_Signature; form='list': a one-element array of them."""
+    root = InputNode("v", policy)
+    ctx.inputs["v"] = root
+
+    def bytes_node(n, name, nonempty=True):
+        preset(n, "Bytes", bytes=ctx.fresh_opaque(name, "vec", nonempty=nonempty))
+        ctx.side.setdefault("bytes_nodes", {})[n.bytes.opaque.ident] = n
+        return n
+
+    def parsed_of(b, node):
+        b.parsed = node
+        b.parse_outcome = ("ok", node, True)
+        ctx.side.setdefault("parsed", {})[b.bytes.opaque.ident] = b.parse_outcome
+
+    def empty_bstr(n, name):
+        preset(n, "Bytes", bytes=VecV([], None, "vec"))
+        return n
+
+    def sig_nodes(path):
+        items = [InputNode("%s[%d]" % (path, i), policy) for i in range(3)]
+        return items
+
+    def put_countersig(hdr, depth):
+        """hdr: an (undecided) header-map node; gives it {7: sig or [sig]} and returns the signature's
+        (protected bstr node, unprotected map node)"""
+        k = InputNode(hdr.path + "{0}k", policy, role="key")
+        preset(k, "Integer", int=z3.BitVecVal(7, 128))
+        v = InputNode(hdr.path + "{0}v", policy, role="value")
+        if form == "bare":
+            items = sig_nodes(v.path)
+            preset(v, "Array", items=items)
+        else:
+            inner = InputNode(v.path + "[0]", policy)
+            items = sig_nodes(inner.path)
+            preset(inner, "Array", items=items)
+            preset(v, "Array", items=[inner])
+        bytes_node(items[2], "sig%d" % depth)
+        preset(hdr, "Map", entries=[(k, v)])
+        return items[0], items[1]
+
+    top = [InputNode("v[%d]" % i, policy) for i in range(4)]
+    preset(root, "Array", items=top)
+    preset(top[2], "Null")
+    bytes_node(top[3], "signature")
+    prot, unprot = top[0], top[1]
+    for d in range(levels):
+        if via == "protected":
+            bytes_node(prot, "prot%d" % d)
+            hdr = InputNode(prot.path + ".parsed", policy)
+            parsed_of(prot, hdr)
+            preset(unprot, "Map", entries=[])
+        else:
+            empty_bstr(prot, "prot%d" % d)
+            hdr = unprot
+        prot, unprot = put_countersig(hdr, d)
+    empty_bstr(prot, "prot-last")
+    preset(unprot, "Map", entries=[])
+    return root
+
+
+def spine_job(eng, tables, prop, max_level, deadline, max_paths=None, initial=None, bfs=False, slice_s=None):
+    """Nesting spines of counter-signatures, level by level, through protected and unprotected
+    headers, in the bare and in the list form: a spine is accepted exactly up to the documented
+    nesting limit (the crate's MAX_COUNTER_SIGNATURE_DEPTH), an accepted spine decodes to the
+    reference value, encodes, and its encoding decodes to an equal value again."""
+    import sys
+    from jobs_encode import strip_original
+    job = JobResult("spine:CoseSign1")
+    seen = {}
+    policy = Policy(max_array=3, max_map=1, max_depth=10 ** 6)
+    limit = None
+    for name, c in eng.prog.consts.items():
+        if name.split("::")[-1] == "MAX_COUNTER_SIGNATURE_DEPTH" and isinstance(c, tuple):
+            limit = int(c[1].split("_")[0])
+    job.extra["documented_limit"] = limit
+    old = sys.getrecursionlimit()
+    sys.setrecursionlimit(max(old, 100000))
+    try:
+        for via in ("protected", "unprotected"):
+            for form in ("bare", "list"):
+                for n in range(1, max_level + 1):
+                    def harness(ctx, n=n, via=via, form=form):
+                        root = spine_input(ctx, n, policy, via, form)
+                        r = ctx.call("<sign::CoseSign1 as AsCborValue>::from_cbor_value", [Lazy(root)])
+                        problems = []
+                        want_ok = limit is None or n <= limit
+                        if (r.variant == "Ok") != want_ok:
+                            problems.append(("C01" if r.variant == "Ok" else "C09", "limit", "nesting-limit",
+                                             "a spine of %d counter-signature levels (%s headers, %s form) is %s but "
+                                             "the documented nesting limit is %s" % (n, via, form, "accepted" if r.variant == "Ok" else "rejected", limit)))
+                        ctx.side["spine_accepted"] = r.variant == "Ok"
+                        if r.variant != "Ok":
+                            return problems
+                        d = hcommon.compare_with_reference(ctx, eng, tables, "sign1", root, r, strict_first=True)
+                        if d is not None:
+                            problems.append(("C09", "limit", "spine-" + d["class"], d["what"]))
+                            return problems
+                        x = r.fields[0]
+                        keep = deep_clone(x)
+                        r1 = ctx.call("<sign::CoseSign1 as AsCborValue>::to_cbor_value", [x])
+                        if r1.variant != "Ok":
+                            problems.append(("C07", "roundtrip", "spine-roundtrip", "an accepted spine does not encode"))
+                            return problems
+                        r2 = ctx.call("<sign::CoseSign1 as AsCborValue>::from_cbor_value", [deep_clone(r1.fields[0])])
+                        if r2.variant != "Ok":
+                            e = r2.fields[0]
+                            problems.append(("C07", "roundtrip", "spine-roundtrip", "the encoding of an accepted %d-level spine (%s headers, %s form) is rejected (%s)"
+                                             % (n, via, form, e.variant)))
+                            return problems
+                        eq = hcommon.spec_eq(ctx, r2.fields[0], keep)
+                        if eq is not True and (eq is False or ctx.check(z3.Not(eq))):
+                            problems.append(("C07", "roundtrip", "spine-roundtrip", "decode(encode(v)) != v on a nesting spine"))
+                        return problems
+                    for ctx, out in eng.explore(harness, max_paths=4, deadline=deadline):
+                        if ctx is None:
+                            job.incomplete.append("spine exploration stopped: %r" % (out,))
+                            break
+                        job.paths += 1
+                        if out[0] == "panic":
+                            mode, cls, what = "limit", "panic:" + out[1].kind, "panics on a nesting spine: %s" % out[1]
+                        elif out[0] == "ok":
+                            if ctx.side.get("spine_accepted"):
+                                job.accepting += 1
+                            else:
+                                job.rejecting += 1
+                            mine = [q for q in out[1] if q[0] == prop]
+                            if not mine:
+                                continue
+                            _, mode, cls, what = mine[0]
+                        else:
+                            continue
+                        key = "%s:CoseSign1:%s" % (prop, cls)
+                        seen[key] = seen.get(key, 0) + 1
+                        if seen[key] > 2:
+                            continue
+                        m = ctx.model()
+                        if m is None:
+                            continue
+                        reg = {}
+                        tree = concrete.node_to_tree(m, ctx.inputs["v"], reg)
+                        hx = concrete.encode(tree).hex()
+                        job.findings.append({"property": prop, "key": key, "what": "CoseSign1: " + what, "op": "roundtrip",
+                                             "type": "CoseSign1", "input_hex": hx,
+                                             "commands": ["ops spine %s %s %s" % (mode, hx, limit if limit is not None else -1)],
+                                             "command": "ops spine %s %s %s" % (mode, hx, limit if limit is not None else -1),
+                                             "predicted": "MISMATCH", "compare": "startswith"})
+    finally:
+        sys.setrecursionlimit(old)
+    job.extra["finding_counts"] = seen
+    return job
